@@ -61,7 +61,7 @@ theorem aggregate_ntotal {W : Colls} {seen : List (Req × Forest)} {s : AggState
     obtain ⟨p, hp, hu⟩ := hT.keys (GTy.mk' types (.interface i0)) rfl (by rw [hg]; rfl)
     exact absurd (hu.trans (gty_uid_of_hasId _ _ rfl)) (hfresh p hp)
   have hNI : NI W types (ImpIds s) s := ⟨hT.ainv, hT.iwf, fun j hj => impIds_lt hT hj, hik, hish⟩
-  obtain ⟨m', G', hfuel, hGG', hGrank⟩ := source_instance_rank hGt
+  obtain ⟨m', G', hfuel, hGG', hGrank⟩ := source_instance_rank (w := false) hGt
   cases hGG'
   -- merging into the import `en` of the class
   have mergeCase : ∀ (en : Str) (existing : ItemKind), amGet s.agg.imports en = some existing →
@@ -133,9 +133,9 @@ theorem aggregate_ntotal {W : Colls} {seen : List (Req × Forest)} {s : AggState
           obtain ⟨x, hx⟩ := Option.isSome_iff_exists.1 (hN.canon_imported (hS q hq))
           exact findSemver_none hf hkn (_, x) (amGet_mem _ _ _ hx) vh hkc
       obtain ⟨k', s1, h1, _, _⟩ := (remapNest_total hW hr.sane types.fuel).1 (aggFuel s.agg types) d (.instance i)
-        (.instance G) s ⟨hNI, hcfg⟩ (.inr ⟨i, rfl, hsrc⟩) hGt (by simp only [aggFuel]; omega)
+        (.instance G) s ⟨hNI, hcfg⟩ (.inr ⟨false, i, rfl, hsrc⟩) hGt (by simp only [aggFuel]; omega)
       obtain ⟨_, hst, _⟩ := (remapNest_spec hW hr.sane (aggFuel s.agg types)).2 d (.instance i) s k' s1 hNI
-        (.inr ⟨i, rfl, hsrc⟩) h1
+        (.inr ⟨false, i, rfl, hsrc⟩) h1
       have hok : ∃ s', (remapKind (aggFuel s.agg types) types (.instance i) >>= freshTail name) s = .ok ((), s') := by
         simp only [run_bind, h1, freshTail, run_getAgg, hst.imports, hg, Option.isSome_none, Bool.false_eq_true,
           ↓reduceIte, run_modifyAgg]
